@@ -27,6 +27,10 @@ def some_payloads(fn):
     for b, i, s in fn.assigns():
         if s["p"]["l"] == 0 and place_is_local(s["p"]) and s["r"]["k"] == "agg" and s["r"].get("variant") in ("Some", "Ok"):
             out.append((b, s, fn.expr(s["r"]["ops"][0], 12)))
+    # `cond.then_some(value)` handed back directly: Some(value) or None
+    for b, t, c in fn.calls():
+        if c and re.search(r"bool>::then_some$", c) and t["dest"]["l"] == 0 and not t["dest"].get("pr") and len(t["args"]) == 2:
+            out.append((b, t, fn.expr(t["args"][1], 14)))
     return out
 
 
@@ -466,7 +470,11 @@ def run(ctx):
         pcs = [(b, t) for b, t, c in f.calls() if c == "lace::output::Output::print_category"]
         if not pcs:
             continue
-        reads_src = any(c and re.search(r"Index<I> for str>::index$|str>::get$", c) and "src" in expr_str(f.expr(t["args"][0], 6), 200) for b, t, c in f.calls())
+        def slices_src(g):
+            return any(c and re.search(r"Index<I> for str>::index$|str>::get$", c) and "src" in expr_str(g.expr(t["args"][0], 6), 200) for b, t, c in g.calls())
+        # ... itself, or through a helper of the source view that hands the slice back
+        reads_src = slices_src(f) or any(m in prog.fns and m.startswith("lace::debugger::asm::") and prog.fns[m].bkind == "fn" and slices_src(prog.fns[m])
+                                         for m in ctx.cg.reachable([n]))
         if not reads_src:
             continue
         for b, t in pcs:
